@@ -465,3 +465,119 @@ def wake_nonblocking(ctx, rule="R-WAKE-NONBLOCK"):
     else:
         ctx.violated(rule, init, inst, "the wake-up queue is bounded and %s blocks when it is full: the job thread, the only consumer of the tokens, posts tokens "
                      "itself (timer callbacks, re-entrant replies) and stops for good on its own put once enough tokens are pending" % ast.unparse(putcall)[:50], qnode)
+
+
+def timer_scan_all(ctx, rule="R-TIMER-SCAN-ALL"):
+    """every pass of the job thread examines every registered timer: the scan over the timer list is not left early.  A scan that stops at
+    the first timer that is not due is only right for a list kept in deadline order - it is reported when some site that adds a timer or
+    moves a deadline does not re-establish the order (the timers behind the first not-due one are then not examined although they are due)."""
+    P = ctx.prog
+    j = P.func(ECU, "_async_job_thread")
+    al = _aliases(j.node, "_timer_events")
+    loops = [n for n in ast.walk(j.node) if isinstance(n, ast.For) and _mentions(n.iter, "_timer_events", al)]
+    # a scan over a snapshot bound to a local first
+    snaps = {t.id for n in ast.walk(j.node) if isinstance(n, ast.Assign) and _mentions(n.value, "_timer_events", al)
+             for t in n.targets if isinstance(t, ast.Name)}
+    loops += [n for n in ast.walk(j.node) if isinstance(n, ast.For) and n not in loops and any(
+        isinstance(x, ast.Name) and x.id in snaps for x in ast.walk(n.iter))]
+    if not loops:
+        raise AnalysisError("anchor vanished: timer dispatch loop in %s" % j.qual)
+    pm = parents(j.node)
+
+    def innermost_loop(n):
+        p = pm.get(n)
+        while p is not None and not isinstance(p, (ast.For, ast.While)):
+            if isinstance(p, (ast.FunctionDef, ast.Lambda)):
+                return None
+            p = pm.get(p)
+        return p
+
+    def shutdown_guarded(n, loop):
+        p = pm.get(n)
+        while p is not None and p is not loop:
+            if isinstance(p, ast.If) and any(isinstance(x, ast.Attribute) and x.attr == "_job_thread_end" for x in ast.walk(p.test)):
+                return True
+            p = pm.get(p)
+        return False
+    ORDER = ("sort", "insort", "insort_left", "insort_right", "heappush", "heapify", "heapreplace", "heappushpop")
+
+    def orders(fn):
+        return any(isinstance(n, ast.Call) and ((isinstance(n.func, ast.Attribute) and n.func.attr in ORDER) or
+                                                (isinstance(n.func, ast.Name) and n.func.id in ORDER + ("sorted",))) for n in ast.walk(fn))
+    for loop in loops:
+        exits = [n for n in ast.walk(loop) if (isinstance(n, ast.Break) and innermost_loop(n) is loop) or
+                 (isinstance(n, ast.Return) and innermost_loop(n) is not None)]
+        exits = [n for n in exits if not shutdown_guarded(n, loop)]
+        inst = "timer scan examines every registered timer in every pass"
+        if not exits:
+            ctx.holds(rule, inst)
+            continue
+        # sites that add a timer or move a deadline
+        cls = P.cls(ECU)
+        unordered = []
+        for mn, m in sorted(cls.methods.items()):
+            touches = False
+            for n in ast.walk(m.node):
+                if isinstance(n, ast.Call) and isinstance(n.func, ast.Attribute) and n.func.attr in ("append", "insert", "extend") and \
+                        _mentions(n.func.value, "_timer_events", _aliases(m.node, "_timer_events")):
+                    touches = True
+                if isinstance(n, (ast.Assign, ast.AugAssign)):
+                    for t in (n.targets if isinstance(n, ast.Assign) else [n.target]):
+                        if isinstance(t, ast.Subscript) and isinstance(t.slice, ast.Constant) and t.slice.value == "deadline":
+                            touches = True
+            if touches and not orders(m.node):
+                unordered.append(mn)
+        if unordered:
+            ctx.violated(rule, j, inst, "the scan over the timer list is left at line %d before all timers were examined, and %s adds a timer / moves a "
+                         "deadline without re-establishing any order of the list: a due timer behind the exit point is not called until a later pass "
+                         "(one timer delays another)" % (exits[0].lineno, ", ".join(unordered)), exits[0])
+        else:
+            ctx.unknown(rule, "the timer scan is left early at line %d and every site orders the list: order invariant not decided" % exits[0].lineno)
+
+
+def wake_consume(ctx, rule="R-WAKE-CONSUME"):
+    """a wake-up token posted while a job pass is running asks for ANOTHER pass (the state change it announces may have happened after the
+    pass looked at that session / timer).  Between the start of a pass and the blocking wait that ends it, the job thread therefore takes
+    nothing out of the wake-up queue; the wait itself is the only consumer."""
+    P = ctx.prog
+    j = P.func(ECU, "_async_job_thread")
+    Q = "_job_thread_wakeup_queue"
+    loops = [n for n in ast.walk(j.node) if isinstance(n, ast.While)]
+    outer = None
+    for w in loops:
+        if any(isinstance(x, ast.Call) and isinstance(x.func, ast.Attribute) and x.func.attr == "async_job_thread" for x in ast.walk(w)):
+            outer = w
+            break
+    if outer is None:
+        raise AnalysisError("anchor vanished: job loop calling the data link layer's pass in %s" % j.qual)
+    al = _aliases(j.node, Q)
+
+    def on_queue(n):
+        return any((_self_attr(x) and x.attr == Q) or (isinstance(x, ast.Name) and x.id in al) for x in ast.walk(n))
+    pass_line = min(x.lineno for x in ast.walk(outer) if isinstance(x, ast.Call) and isinstance(x.func, ast.Attribute) and x.func.attr == "async_job_thread")
+    consumers = []
+    waits = []
+    for x in ast.walk(outer):
+        if isinstance(x, ast.Call) and isinstance(x.func, ast.Attribute) and on_queue(x.func.value):
+            a = x.func.attr
+            if a == "get":
+                kw = {k.arg: k.value for k in x.keywords}
+                block = x.args[0] if x.args else kw.get("block")
+                timeout = x.args[1] if len(x.args) > 1 else kw.get("timeout")
+                nonblock = isinstance(block, ast.Constant) and block.value in (False, 0)
+                if nonblock:
+                    consumers.append(x)
+                else:
+                    waits.append(x)
+            elif a in ("get_nowait", "clear", "popleft", "pop"):
+                consumers.append(x)
+    inst = "the job thread takes wake-up tokens only in the blocking wait that ends a pass"
+    late = [x for x in consumers if x.lineno > pass_line]
+    if late:
+        ctx.violated(rule, j, inst, "wake-up tokens are removed without waiting at line %d, after the pass over the sessions has started (line %d): a "
+                     "token posted by a reply that arrived after the pass looked at its session is dropped, and the thread sleeps until the "
+                     "session's time-out instead of serving the reply" % (late[0].lineno, pass_line), late[0])
+    elif not waits:
+        ctx.unknown(rule, "blocking wait on the wake-up queue not found in %s" % j.qual)
+    else:
+        ctx.holds(rule, inst)
